@@ -366,8 +366,12 @@ def s7(ctx, rep, clause="S7"):
     P = ctx.P
     f = P.method("Tuner", "_schedule_new_task")
     cfg = cfg_of(f)
+    from ..engine import var_from_call
+    sv = var_from_call(f, "suggest")
+    if sv is None:
+        raise AnchorError("Tuner._schedule_new_task: no variable receives scheduler.suggest(...)")
     rn = [n for n in cfg.nodes if n.kind == "stmt" and isinstance(n.ast, ast.Raise) and "StopIteration" in U(n.ast)]
-    ok = len(rn) == 1 and ctx.has_fact(f, rn[0].id, lambda a: a[0] == "is" and a[1] == "suggestion" and a[2] == "None" and a[3] is True)
+    ok = len(rn) == 1 and ctx.has_fact(f, rn[0].id, lambda a: a[0] == "is" and a[1] == sv and a[2] == "None" and a[3] is True)
     # no backend call reachable on that edge
     back = ctx.nodes(f, ctx.sel_or(ctx.sel_call(method="start_trial", recv="TrialBackend"),
                                    ctx.sel_call(method="resume_trial", recv="TrialBackend")), "may", 0)
@@ -376,7 +380,7 @@ def s7(ctx, rep, clause="S7"):
             rn[0].ast if rn else None, "no backend call on that edge")
     # backend calls are guarded by suggestion is not None
     for nid in sorted(back):
-        g = ctx.has_fact(f, nid, lambda a: a[0] == "is" and a[1] == "suggestion" and a[2] == "None" and a[3] is False)
+        g = ctx.has_fact(f, nid, lambda a: a[0] == "is" and a[1] == sv and a[2] == "None" and a[3] is False)
         rep.put(g, clause, "guarded_by", f"Tuner._schedule_new_task: backend call at node needs a suggestion (L{cfg.nodes[nid].lineno})".replace(
             f" (L{cfg.nodes[nid].lineno})", "") + f" [{'start' if 'start_trial' in U(cfg.nodes[nid].ast) else 'resume'}]", f, cfg.nodes[nid].stmt, "")
     r = P.method("Tuner", "run")
